@@ -41,7 +41,7 @@ claimed = {
    technique="generation-tagged token monitor over per-generation peer logs under the race detector with delay injection"),
  "C10": dict(level=E,
    text="360 (quick) / 4000 (thorough) hsmsss lifecycle programs plus 96 / 2000 SECS-I programs against a raw TCP peer and a refused-Open-while-connect-pending scenario: 2..5 goroutines of Open/Close/send/UpdateConfig operations concurrent with a hostile peer script (serve, connect-only, drop, reset, stall, refuse, connect inside Close through gated Accept / delayed dial), then Close twice and leak meters (goroutine dump filtered to library frames, Close() on every harness-owned socket/listener, /proc fd count, no dial/listen after Close), double-Open guard, reopen + round trip. Race build; a hang is caught by the shard watchdog with a goroutine dump." + HELD,
-   note="hsmsss and secs1 transports; handlers return immediately. Close latency bound is close timeout + 5 s. ErrCloseTimeout as a return value is counted, not judged.",
+   note="hsmsss and secs1 transports; data handlers always return (the property's premise): immediately, after 5-80 ms, or after replying and sending from inside the handler. Close latency bound is close timeout + 5 s. ErrCloseTimeout as a return value is counted, not judged.",
    technique="randomized lifecycle programs with leak meters (goroutines, sockets, fds), latency bound and race detector"),
  "C20": dict(level=E,
    text="80 (quick) / 1200 (thorough) histories of 1..32 concurrent senders whose calls end in every outcome (reply, reject, T3, cancel, refused, disconnect, write error, write timeout against a peer that stops reading), with a drop, a forced streak of refused dials and a reconnect; an accountant derives every counter from the per-call outcomes and the peer's own frame counts and compares at quiescent points; a sampler watches both gauges (never negative; Reconnecting()>0 inside the refusal streak). Race build." + HELD,
